@@ -43,7 +43,7 @@ pub fn classify(r: &Result<BootInformation, LoadError>) -> Spec {
     }
 }
 
-// @harness props=C02,C08 tier=quick panic=forbid features=both
+// @harness props=C02,C08,C01 tier=quick panic=forbid features=both
 // @encodes multiboot2::BootInformation::load DynSizedStructure::ref_from_ptr BootInformationHeader::payload_len Header::total_size BytesRef::try_from DynSizedStructure::ref_from_bytes BootInformation::has_valid_end_tag start_address end_address total_size as_ptr
 // @bound 64-byte object, declared total_size symbolic in 0..=64 (all residues), reserved word and all contents symbolic
 #[cfg_attr(kani, kani::proof)]
